@@ -56,10 +56,24 @@ pub fn dtn_address(ssp: &[u8]) -> Option<DtnAddress> {
     serde_cbor::from_slice::<DtnAddress>(&cbor_text(ssp)).ok()
 }
 
+/// The string a `DtnAddress` holds, read through its serde form (NOT through `Display`, which is code under test).
+pub fn raw_ssp(a: &DtnAddress) -> Vec<u8> {
+    let v = serde_cbor::to_vec(a).unwrap_or_default();
+    let hl = match v.first().map(|b| b & 31) { Some(0..=23) => 1, Some(24) => 2, Some(25) => 3, Some(26) => 5, Some(27) => 9, _ => 0 };
+    if v.first().map(|b| b >> 5) == Some(3) && hl > 0 && hl <= v.len() { v[hl..].to_vec() } else { a.to_string().into_bytes() }
+}
+/// URI text of an endpoint ID written by the harness itself (RFC 9171 4.2.5.1), for oracles
+pub fn eid_text(e: &EndpointID) -> String {
+    match e {
+        EndpointID::DtnNone(_, _) => "dtn:none".into(),
+        EndpointID::Dtn(_, a) => format!("dtn:{}", String::from_utf8_lossy(&raw_ssp(a))),
+        EndpointID::Ipn(_, a) => format!("ipn:{}.{}", a.node_number(), a.service_number()),
+    }
+}
 pub fn show_eid(e: &EndpointID) -> String {
     match e {
         EndpointID::DtnNone(c, v) => format!("N:{}:{}", c, v),
-        EndpointID::Dtn(c, a) => format!("D:{}:{}", c, hex(a.to_string().as_bytes())),
+        EndpointID::Dtn(c, a) => format!("D:{}:{}", c, hex(&raw_ssp(a))),
         EndpointID::Ipn(c, a) => format!("I:{}:{}.{}", c, a.node_number(), a.service_number()),
     }
 }
